@@ -53,6 +53,12 @@ def cal_pool(base_day):
         ("wk-1", cal.op("-", W([0, 1, 2, 3, 4], cal.q(8)), cal.number(cal.q(2))), True, False),
         ("wk*half", cal.op("*", W([0, 1, 2, 3, 4, 5], cal.q(4)), cal.number(cal.q(1, 2))), True, False),
         ("wk+sat", cal.op("+", W([0, 1, 2, 3, 4], cal.q(6)), W([5], cal.q(3))), True, False),
+        # bounded validity (day-granular bounds: 00:00 .. 23:59): with a fallback (ample), and alone (may run out)
+        ("bounded|wk", cal.op("|", W([0, 1, 2, 3, 4], cal.q(6), (b - 2) * DAY, (b + 9) * DAY + 1439),
+                              W([0, 1, 2, 3, 4], cal.q(8))), True, False),
+        ("wk+bounded", cal.op("+", W([0, 1, 2, 3, 4], cal.q(4)),
+                              cal.fixed(cal.q(2), (b + 1) * DAY, (b + 3) * DAY + 1439)), True, False),
+        ("bounded", W([0, 1, 2, 3, 4, 5, 6], cal.q(4), max(b - 40, 0) * DAY, (b + 45) * DAY + 1439), False, False),
         ("zero", W([0, 1, 2, 3, 4, 5, 6], cal.q(0)), False, True),
         ("empty", D({}), False, True),
         ("fixed0", cal.fixed(cal.q(0)), False, True),
